@@ -48,5 +48,11 @@ unsigned long __CPROVER_uninterpreted_umul64(unsigned long, unsigned long);
 #define XV_UMUL32(a, b) __CPROVER_uninterpreted_umul32((a), (b))
 #define XV_UMUL64(a, b) __CPROVER_uninterpreted_umul64((a), (b))
 
+static xv_empty xv_empty_value;
+unsigned long __CPROVER_uninterpreted_stdhash(unsigned long);
+#define XV_STDHASH(x) __CPROVER_uninterpreted_stdhash(x)   /* std::hash<integer>: some function of the value */
+#define XV_SWAP(T, a, b) do { T xv_tmp = *(a); *(a) = *(b); *(b) = xv_tmp; } while (0)
+#include "xv_vec.h"
+
 static inline void xv_abort(void) { __CPROVER_assume(0); }
 #endif
